@@ -65,7 +65,8 @@ class C19(object):
             '>= 2 series and >= 1 data row' % BATCH)
     assumptions = ['priority order (iteration, iteration_error, iteration_abs_change, k, t) is the documented one',
                    "the table is compared structurally (lines split on newline, cells on tab), not byte for byte"]
-    required_counters = ('synthetic.judged', 'solve.judged', 'cells.compared', 'synthetic.rerendered_after_dict_op', 'model.judged')
+    required_counters = ('synthetic.judged', 'solve.judged', 'cells.compared', 'synthetic.rerendered_after_dict_op', 'model.judged',
+                         'solve.horizon_set_on_solver')
 
     def n_cases(self, tier):
         return 40 if tier == 'quick' else 4000
@@ -77,8 +78,12 @@ class C19(object):
                     'fmt': rng.choice(['%.5g', '%r'])}
         if idx % 4 == 3:
             spec = G.gen_affine(rng, rho=rng.choice([0.2, 0.5]), tol=1e-8)
-            return {'kind': 'solve', 'spec': spec, 'text': G.render(spec), 'fmt': rng.choice(['%.5g', '%.12e', '%r']),
-                    'reduction': rng.random() < 0.5, 'via_model': rng.random() < 0.3}
+            case = {'kind': 'solve', 'spec': spec, 'text': G.render(spec), 'fmt': rng.choice(['%.5g', '%.12e', '%r']),
+                    'reduction': rng.random() < 0.5, 'solver_horizon': None}
+            if rng.random() < 0.5:
+                # the horizon is set on the solver (as Model does); the block's own MaxTime line says something else
+                case['solver_horizon'] = rng.choice([0, 0, 1, 2, spec['maxtime']])
+            return case
         return {'kind': 'batch', 'bseed': rng.getrandbits(48), 'n': BATCH}
 
     def judge_table(self, holder_dict, fmt, text, rec, ctx):
@@ -207,6 +212,9 @@ class C19(object):
         from sfc_models.equation_solver import EquationSolver
         solver = EquationSolver(run_equation_reduction=case['reduction'])
         solver.MaxIterations = 3000
+        if case.get('solver_horizon') is not None and case['solver_horizon'] <= case['spec']['maxtime']:
+            solver.MaxTime = case['solver_horizon']
+            rec.count('solve.horizon_set_on_solver')
         try:
             with contextlib.redirect_stdout(io.StringIO()):
                 solver.ParseString(case['text'])
@@ -217,8 +225,11 @@ class C19(object):
         rec.count('solve.judged')
         gh, grows = monitors.parse_table(text)
         horizon = case['spec']['maxtime']
+        if case.get('solver_horizon') is not None and case['solver_horizon'] <= horizon:
+            horizon = case['solver_horizon']
         if len(grows) != horizon + 1:
-            rec.violate('rows_not_horizon_plus_one', {'rows': len(grows), 'horizon': horizon, 'block': case['text']})
+            rec.violate('rows_not_horizon_plus_one', {'rows': len(grows), 'horizon': horizon, 'block': case['text'],
+                                                      'horizon_set_on_solver': case.get('solver_horizon')})
         if sorted(gh) != sorted(solver.TimeSeries.keys()) or len(set(gh)) != len(gh):
             rec.violate('series_not_named_once', {'header': gh, 'series': sorted(solver.TimeSeries.keys())})
         self.judge_table(dict(solver.TimeSeries), case['fmt'], text, rec, {'fmt': case['fmt'], 'solve': True})
